@@ -18,6 +18,8 @@ pub struct Ctx {
     pub n_ops: u64,
     pub last_op: String,
     pub n_long: u64,
+    /// operations issued, by operation word (and by order for reduce/beta): the input distribution of the evidence
+    op_counts: Vec<(String, u64)>,
     pub strict: bool,
     pub failures: Vec<(String, Vec<String>)>,
     pub stats: BTreeMap<String, u64>,
@@ -45,6 +47,7 @@ impl Ctx {
             soak: false,
             last_op: String::new(),
             n_long: 0,
+            op_counts: Vec::new(),
             strict: false,
             prop: prop.to_string(),
             ops: File::create(format!("{}/ops.txt", dir)).unwrap(),
@@ -70,6 +73,16 @@ impl Ctx {
                 return "skipped".to_string();
             }
         }
+        {
+            // first word, plus the order for reduce/beta (cheap: a handful of distinct keys, looked up linearly)
+            let mut it = line.split(' ');
+            let w = it.next().unwrap_or("");
+            let o = if w == "reduce" || w == "beta" || w == "reduceb" { it.next().unwrap_or("") } else { "" };
+            match self.op_counts.iter_mut().find(|(k, _)| k.len() == w.len() + o.len() + 4 && k[3..].starts_with(w) && k.ends_with(o)) {
+                Some(e) => e.1 += 1,
+                None => self.op_counts.push((format!("op_{}_{}", w, o), 1)),
+            }
+        }
         self.last_op = line.to_string();
         self.ops.write_all(line.as_bytes()).unwrap();
         self.ops.write_all(b"\n").unwrap();
@@ -83,8 +96,9 @@ impl Ctx {
         if r == "PANIC" && !(line.starts_with("applyb ") || line.starts_with("reduceb ")) {
             self.fail("implementation panicked", &[line.to_string()]);
         }
-        if self.samples.len() < 12 && (self.n_ops % 97 == 1 || self.samples.len() < 3) {
-            self.samples.push(format!("{}  =>  {}", trunc(line), trunc(&r)));
+        // samples spread over the whole run: operation numbers 1, 2, 4, 8, … (at most 26 of them)
+        if self.n_ops.is_power_of_two() && self.samples.len() < 26 {
+            self.samples.push(format!("#{}: {}  =>  {}", self.n_ops, trunc(line), trunc(&r)));
         }
         r
     }
@@ -129,6 +143,9 @@ impl Ctx {
         writeln!(st, "distinct_nontrivial {}", self.nontrivial.len()).unwrap();
         for (k, v) in &self.stats {
             writeln!(st, "stat {} {}", k, v).unwrap();
+        }
+        for (k, v) in &self.op_counts {
+            writeln!(st, "stat {} {}", k.trim_end_matches('_'), v).unwrap();
         }
         for sm in &self.samples {
             writeln!(st, "sample {}", sm).unwrap();
